@@ -344,9 +344,12 @@ func (e *Engine) check(extra []*Term) (Result, map[string]uint64) {
 	}
 	if len(e.cfg.Fallbacks) > 0 {
 		t0 := time.Now()
-		r2, m2, _ := OneShotRace(e.cfg.Fallbacks, p.pc, extra, p.vars, e.cfg.OneShotS)
+		r2, m2, who := OneShotRace(e.cfg.Fallbacks, p.pc, extra, p.vars, e.cfg.OneShotS)
 		e.solver.Stats.Fallback++
 		e.solver.Stats.TimeS += time.Since(t0).Seconds()
+		if debugSlow {
+			fmt.Fprintf(os.Stderr, "one-shot race: %s by %q in %.1fs%s\n", r2, who, time.Since(t0).Seconds(), e.where())
+		}
 		if r2 == Unsat {
 			e.solver.Stats.Unknown--
 			e.solver.Stats.Unsat++
